@@ -291,6 +291,9 @@ def compute_monotonicity(df_samples, sig):
     >>> monotonicity = compute_monotonicity(df_samples, sig)
     """
 
+    # Integer-typed signals would wrap around when differenced
+    sig = np.asarray(sig, dtype='float64')
+
     # Compute monotonicity
     cycles = len(df_samples)
     monotonicity = np.zeros(cycles)
